@@ -3512,4 +3512,75 @@ theorem cloneSpec : ∀ f, CloneSpec f
             rw [hcont]; rfl
 
 
+
+
+/-! ## exact dyadic numbers: normal forms are unique -/
+
+/-- `m / 2^e` in normal form -/
+def Dy.Normal (d : Dy) : Prop := d.e = 0 ∨ d.m % 2 = 1
+
+/-- numeric equality of two dyadic rationals: `m1 / 2^e1 = m2 / 2^e2` -/
+def Dy.ValEq (a b : Dy) : Prop := a.m * 2 ^ b.e = b.m * 2 ^ a.e
+
+theorem Dy.norm_normal : ∀ (m : Int) (e : Nat), (Dy.norm m e).Normal
+  | m, 0 => Or.inl rfl
+  | m, e + 1 => by
+    unfold Dy.norm
+    by_cases h : m % 2 = 0
+    · simp only [h, if_true]; exact Dy.norm_normal (m / 2) e
+    · simp only [h, if_false]; right; show m % 2 = 1; omega
+
+theorem Dy.norm_valEq : ∀ (m : Int) (e : Nat), (Dy.norm m e).ValEq ⟨m, e⟩
+  | m, 0 => rfl
+  | m, e + 1 => by
+    unfold Dy.norm
+    by_cases h : m % 2 = 0
+    · simp only [h, if_true]
+      have ih := Dy.norm_valEq (m / 2) e
+      unfold Dy.ValEq at ih ⊢
+      simp only at ih ⊢
+      have hm : m = 2 * (m / 2) := by omega
+      rw [Int.pow_succ]
+      calc (Dy.norm (m / 2) e).m * (2 ^ e * 2) = ((Dy.norm (m / 2) e).m * 2 ^ e) * 2 := by ac_rfl
+        _ = (m / 2 * 2 ^ (Dy.norm (m / 2) e).e) * 2 := by rw [ih]
+        _ = (2 * (m / 2)) * 2 ^ (Dy.norm (m / 2) e).e := by ac_rfl
+        _ = m * 2 ^ (Dy.norm (m / 2) e).e := by rw [← hm]
+    · simp only [h, if_false]; rfl
+
+
+theorem pow2_pos (n : Nat) : (0 : Int) < 2 ^ n := Int.pow_pos (by decide)
+
+theorem odd_mul_pow2 {m : Int} {k : Nat} (hm : m % 2 = 1) (x : Int) (h : m = x * 2 ^ (k + 1)) : False := by
+  rw [Int.pow_succ, ← Int.mul_assoc] at h
+  omega
+
+/-- two normal forms with the same numeric value are the same pair — so `=` on `Dy` (what the model's `==` uses)
+IS numeric equality -/
+theorem Dy.normal_unique {a b : Dy} (ha : a.Normal) (hb : b.Normal) (hv : a.ValEq b) : a = b := by
+  obtain ⟨m1, e1⟩ := a
+  obtain ⟨m2, e2⟩ := b
+  unfold Dy.ValEq at hv
+  simp only [Dy.Normal] at ha hb hv
+  -- compare the exponents
+  rcases Nat.lt_trichotomy e1 e2 with hlt | heq | hgt
+  · -- e1 < e2: m1 * 2^e2 = m2 * 2^e1 makes m2 even, but e2 > 0 forces m2 odd
+    exfalso
+    have hb' : m2 % 2 = 1 := by rcases hb with h | h; omega; exact h
+    obtain ⟨k, hk⟩ : ∃ k, e2 = e1 + (k + 1) := ⟨e2 - e1 - 1, by omega⟩
+    rw [hk, Int.pow_add] at hv
+    have h2 : m1 * 2 ^ (k + 1) * 2 ^ e1 = m2 * 2 ^ e1 := by rw [← hv]; ac_rfl
+    have h3 := Int.eq_of_mul_eq_mul_right (Int.ne_of_gt (pow2_pos e1)) h2
+    exact odd_mul_pow2 hb' m1 h3.symm
+  · subst heq
+    have h3 := Int.eq_of_mul_eq_mul_right (Int.ne_of_gt (pow2_pos e1)) hv
+    rw [h3]
+  · exfalso
+    have ha' : m1 % 2 = 1 := by rcases ha with h | h; omega; exact h
+    obtain ⟨k, hk⟩ : ∃ k, e1 = e2 + (k + 1) := ⟨e1 - e2 - 1, by omega⟩
+    rw [hk, Int.pow_add] at hv
+    have h2 : m2 * 2 ^ (k + 1) * 2 ^ e2 = m1 * 2 ^ e2 := by rw [hv]; ac_rfl
+    have h3 := Int.eq_of_mul_eq_mul_right (Int.ne_of_gt (pow2_pos e2)) h2
+    exact odd_mul_pow2 ha' m2 h3.symm
+
+
 end AslModel.Var
